@@ -438,7 +438,7 @@ def run(ctx):
                         c.step_callback(tA, qB.copy(), uA.copy()); c2.step_callback(tA, qB.copy(), uA.copy())
                         got, ref = ev(c), ev(c2)
                         for name, g_, r_ in zip(("gamma_F", "gamma_F_q", "W_F", "Wla_F_q", "gamma_F_dot"), got, ref):
-                            if g_.shape != r_.shape or np.max(np.abs(g_ - r_)) > 1e-12 * (1 + np.max(np.abs(r_))):
+                            if g_.shape != r_.shape or not (np.max(np.abs(g_ - r_)) <= 1e-12 * (1 + np.max(np.abs(r_)))):
                                 ctx.violation(f"{key}:history:{name}", f"{name} evaluated at a state, then after step_callback at another state, again at the first state differs from a twin "
                                               f"contact that was not evaluated before ({where})", dict(where, q=qA.tolist(), q_step=qB.tolist()))
                         return True
